@@ -2,7 +2,7 @@
    Statements only; every proof is [exact <lemma of Proofs/TreeStores.v>] or a [vm_compute] witness.
 
    FULL STATEMENT (not provable as it stands, see the _refuted witnesses below):
-     stores_agree : forall toc probes, conforming toc = true -> view_mem toc probes = view_db false toc probes
+     stores_agree : forall toc probes, conforming toc = true -> view_mem toc probes = view_db toc probes
    What is proved for ALL inputs: the attribute codec of the db store is the identity on what the memory store reports
    (C05_attr_codec_roundtrip, byte level: C05_int_codec_bytes), names (C05_clean_normal_form), the db store's recomputed chunk table and ChunkEntryForOffset agree with the memory store's
    for every file whose chunks tile it and every offset (C05_chunk_tables_agree, C05_chunk_lookup_agree), the TOC digest
@@ -80,13 +80,12 @@ Print Assumptions C05_stores_accept_hardlink_free.
 (* Tree agreement on simple TOCs (any number of entries, any nesting depth, any attributes/xattrs/modtimes, any spelling
    of the names): both stores accept and show exactly the same canonical view.
      simple_toc toc := every entry is entry_ok (type dir/reg/symlink/char/block/fifo; permission bits < 2^24; cleaned
-       name not the root; a reg has chunkOffset 0, chunkSize 0 or = size, a chunkDigest unless it has no digest at all,
-       and an offset only when non-empty; other types have no offset)
+       name not the root; a reg has chunkOffset 0, chunkSize 0 or = size and an offset only when non-empty; other types have no offset)
        /\ the cleaned names are pairwise distinct
        /\ every entry is at top level or its parent path is the cleaned name of an EARLIER entry. *)
 Theorem C05_stores_agree_partial : forall toc probes,
   simple_toc toc -> Forall (fun p => 0 <= p) probes ->
-  view_mem toc probes = view_db false toc probes /\ view_mem toc probes <> None.
+  view_mem toc probes = view_db toc probes /\ view_mem toc probes <> None.
 Proof. exact stores_agree_simple. Qed.
 Print Assumptions C05_stores_agree_partial.
 
@@ -102,7 +101,7 @@ Print Assumptions C05_db_layers_independent.
 Theorem C05_db_open_fresh : forall d cands toc c, pick_id d cands 100 = Some c ->
   l_find c d = None /\
   l_view (l_step d (LOpen cands toc)) c =
-    (fun probes => match db_build toc with Some _ => view_db false toc probes | None => l_view [(c, d_init)] c probes end).
+    (fun probes => match db_build toc with Some _ => view_db toc probes | None => l_view [(c, d_init)] c probes end).
 Proof. exact l_open_fresh. Qed.
 Print Assumptions C05_db_open_fresh.
 
@@ -114,18 +113,13 @@ Definition hardlink (name target : list Z) : entry := E name THardlink 0 None 0 
 
 (* F12: a hardlink entry before the entry it names — memory accepts, db rejects *)
 Theorem C05_stores_agree_refuted_forward_hardlink : exists toc,
-  conforming toc = true /\ view_mem toc [] <> None /\ view_db false toc [] = None.
+  conforming toc = true /\ view_mem toc [] <> None /\ view_db toc [] = None.
 Proof. exists [hardlink [10] [11]; reg [11] 5 7 8]. vm_compute. repeat split. discriminate. Qed.
 Print Assumptions C05_stores_agree_refuted_forward_hardlink.
 
-(* F51: "entries":null — memory shows an empty root, db rejects *)
-Theorem C05_stores_agree_refuted_entries_null : view_mem [] [] <> None /\ view_db true [] [] = None.
-Proof. vm_compute. split; [discriminate|reflexivity]. Qed.
-Print Assumptions C05_stores_agree_refuted_entries_null.
-
 (* F52: TOC starting with a chunk entry (not conforming; the accept/reject clause) — memory accepts, db rejects *)
 Theorem C05_stores_accept_same_refuted_chunk_first : exists toc,
-  view_mem toc [] <> None /\ view_db false toc [] = None.
+  view_mem toc [] <> None /\ view_db toc [] = None.
 Proof. exists [ent [11] TChunk; reg [11] 5 7 8]. vm_compute. split; [discriminate|reflexivity]. Qed.
 Print Assumptions C05_stores_accept_same_refuted_chunk_first.
 
@@ -133,21 +127,13 @@ Print Assumptions C05_stores_accept_same_refuted_chunk_first.
 Theorem C05_stores_agree_refuted_dir_after_child : exists toc,
   conforming toc = true /\
   option_map a_nlink (root_attr_of (view_mem toc [])) = Some 3 /\
-  option_map a_nlink (root_attr_of (view_db false toc [])) = Some 4.
+  option_map a_nlink (root_attr_of (view_db toc [])) = Some 4.
 Proof. exists [reg [10; 11] 5 7 8; ent [10] TDir]. vm_compute. repeat split. Qed.
 Print Assumptions C05_stores_agree_refuted_dir_after_child.
 
-(* F53: reg entry with a file digest but no chunk digest — ChunkEntryForOffset(0) reports digest 7 (memory) vs none (db) *)
-Theorem C05_stores_agree_refuted_no_chunk_digest : exists toc,
-  conforming toc = true /\
-  option_map (fun l => map v_probes l) (view_mem toc [0]) = Some [[]; [Some (0, 5, 7)]] /\
-  option_map (fun l => map v_probes l) (view_db false toc [0]) = Some [[]; [Some (0, 5, 0)]].
-Proof. exists [reg [11] 5 7 0]. vm_compute. repeat split. Qed.
-Print Assumptions C05_stores_agree_refuted_no_chunk_digest.
-
 (* F13: db GetAttr(root) does not wait for the TOC to be loaded: before that it reports another root than afterwards *)
 Theorem C05_root_attr_stable_refuted : exists toc,
-  conforming toc = true /\ root_attr_of (view_db false toc []) <> Some db_early_root_attr.
+  conforming toc = true /\ root_attr_of (view_db toc []) <> Some db_early_root_attr.
 Proof. exists [ent [10] TDir]. vm_compute. split; [reflexivity|discriminate]. Qed.
 Print Assumptions C05_root_attr_stable_refuted.
 
@@ -167,7 +153,6 @@ Proof.
   - simpl. split; [intros x [<-|[]]; vm_compute; reflexivity|]. split; [intros x []|exact I].
   - simpl. repeat split; vm_compute; reflexivity.
   - repeat constructor; vm_compute; reflexivity.
-  - constructor; [left; discriminate|constructor; [left; discriminate|constructor]].
 Qed.
 
 (* a TOC with an implicit parent, a repeated directory with other attributes, a root entry "./", a hardlink to a hardlink,
@@ -176,7 +161,7 @@ Example C05_agree_nonvacuous :
   let toc := [ E [1; 0] TDir 0 (Some 5) 0 [] 457 3 0 0 0 [(1, 0); (2, 5)] 0 0 0 0 0 0;
                ent [10] TDir; reg [10; 11] 5 7 8; E [2; 10] TDir 0 None 0 [] 448 9 9 0 0 [] 0 0 0 0 0 0;
                hardlink [12; 13] [1; 10; 11]; hardlink [14] [12; 2; 12; 13] ] in
-  conforming toc = true /\ view_mem toc [0; 4; 5] = view_db false toc [0; 4; 5] /\ view_mem toc [] <> None.
+  conforming toc = true /\ view_mem toc [0; 4; 5] = view_db toc [0; 4; 5] /\ view_mem toc [] <> None.
 Proof. vm_compute. repeat split. discriminate. Qed.
 
 (* two layers in one database, one closed: the other one still shows its filesystem *)
@@ -192,7 +177,7 @@ Proof.
     + constructor; [|constructor; [|constructor; [|constructor]]].
       * constructor; [reflexivity|simpl; lia|vm_compute; discriminate|intro H; discriminate H|intros _; reflexivity].
       * constructor; [reflexivity|simpl; lia|vm_compute; discriminate| |intro H; exfalso; apply H; reflexivity].
-        intros _. simpl. split; [lia|]. split; [reflexivity|]. split; [left; reflexivity|]. split; [left; discriminate|intro H; discriminate H].
+        intros _. simpl. split; [lia|]. split; [reflexivity|]. split; [left; reflexivity|intro H; discriminate H].
       * constructor; [reflexivity|simpl; lia|vm_compute; discriminate|intro H; discriminate H|intros _; reflexivity].
     + vm_compute. repeat constructor; simpl; intuition discriminate.
     + intros i e H. destruct i as [|[|[|i]]]; simpl in H; inversion H; subst.
